@@ -307,9 +307,12 @@ pub fn run(run: &mut Run) {
     // (c) big integers wider than necessary: terms the decoders produce from SMALL_BIG_EXT / LARGE_BIG_EXT with zero digits
     // above the most significant one (and that the repository's own tests construct); a separate universe because its
     // failures are a recorded finding (C11-F1)
+    let mut n_wide = 0usize;
     for encs in nonminimal_universes() {
         run.custom("wider-than-necessary-big-integers", &encs, nonminimal_oracle(&encs));
+        n_wide += 1;
     }
+    run.note_campaign(serde_json::json!({"name": "wider-than-necessary-big-integers", "kind": "enumerated", "evaluations": n_wide}));
 }
 
 /// universes as lists of encodings (hex), decoded by the library itself
